@@ -55,7 +55,8 @@ ASSUMPTIONS = ['plumbing cases: at most one connector retries or reconnects at a
                'inside one epoll dispatch the events subscribed at its start are served in subscription order, each only if still subscribed (C03)',
                'the kernel delivers a stream socket\'s send queue in order; close(2) without SO_LINGER and without unread inbound data delivers the queue, then FIN; '
                'with SO_LINGER{on,0} (AF_INET) or unread inbound data it discards what has not reached the peer and the peer reads ECONNRESET',
-               'C06_active_close_delivers_partial assumes no inbound data is unread at the close (C06_close_unread_inbound_counterexample, replayed on the real code by the `tcp … opu` line)',
+               'C06_active_close_delivers_partial assumes no inbound data is unread at the close (C06_close_unread_inbound_counterexample, replayed on the real code by the `tcp … opu` line; '
+               'the same scenario judged against the statement itself, `tcp … opuS`, is the recorded finding active-close-unread-inbound)',
                'errno values other than EAGAIN are one oracle answer each (`er`: EPIPE for write, ECONNRESET for readv); the code only distinguishes EAGAIN']
 RULE = ('op sequences on one BufferedFd or TcpConnection generated by props/C06/plugin.py: sends of 0 B..256 KiB (thorough: 4 MiB) before '
         'enable / while running / after disable, scripted kernel answers (partial accept, a0, EAGAIN, error; read chunks, boundary fills, '
@@ -501,7 +502,12 @@ def gen(rng, tier):
     for closer in ('sd', 'ss', 'cs') * (1 if tier == 'quick' else 2):
         yield [gen_tcp(rng, tier, closer)]
     # C06_close_unread_inbound_counterexample on the real code: inbound bytes unread at the active close -> the peer's read ends with a reset
-    yield ['tcp %s opu 4096 65536 1:1,2:300000,3:1000000' % rng.choice(['sd', 'ss', 'cs'])]
+    u1, u2 = rng.sample(['sd', 'ss', 'cs'], 2)
+    yield ['tcp %s opu 4096 65536 1:1,2:300000,3:1000000' % u1]
+    # ... and the same scenario judged against the PROPERTY (every byte, then EOF): the recorded finding UNREAD_FP.  At most
+    # UNREAD_SPEC_CASES such cases per run, so that they cannot crowd other divergences out of the examined ones.
+    for c in [u1, u2][:UNREAD_SPEC_CASES]:
+        yield ['tcp %s opuS 4096 65536 1:1,2:300000,3:1000000' % c]
     # the TCP plumbing: directed cases first
     yield ['nsinit', 'nsstart', 'ncinit 0', 'ncrec 0 0', 'ncstart 0', 'nscb disc stop', 'ncstop 0', 'nsstart', 'nscleanup']    # stop() in a disconnected callback
     yield ['nkinit 2', 'nkcb fail stop', 'nkstart', 'nadv 1000', 'nadv 1000', 'nkstart', 'nadv 1000']                          # stop() in the connect-fail callback after a retry
@@ -534,6 +540,41 @@ def gen(rng, tier):
         yield gen_net(rng, tier, 2)
     for _ in range(n // 4):
         yield gen_net(rng, tier, 3)
+
+
+# `tcp … opu` ties the active close with unread inbound data AS CODED (model: end=reset).  The lead has recorded the deviation
+# from the statement as a finding (known_findings.txt, fp below); `tcp … opuS` asks for what the PROPERTY wants instead.
+UNREAD_FP = 'active-close-unread-inbound'
+UNREAD_SPEC_CASES = 2
+
+
+def _as_coded_agrees(ops):
+    """does the same scenario compared with the model of the code + kernel as they are (`opu`) agree, M lines included?"""
+    import hashlib, os
+    rkey = '' if vlib.REPO == '/repo' else '_' + hashlib.sha1(vlib.REPO.encode()).hexdigest()[:8]
+    exe = os.path.join(vlib.CACHE, ID, 'harness_' + FLAVOUR + rkey)
+    alt = [o.replace(' opuS ', ' opu ') for o in ops]
+    try:
+        il, _ = vlib.run_harness_cases(exe, {0: alt}, timeout_per_batch=300)
+        ml = vlib.run_driver_cases(EXE, {0: alt})
+        return vlib.first_diff(il.get(0, []), ml.get(0, [])) is None
+    except Exception:
+        return False
+
+
+def fingerprint(ops, d):
+    if any(o.startswith('tcp ') and ' opuS ' in o for o in ops):
+        # the recorded finding, and only it: the peer received an in-order proper prefix of what was sent and its read ended
+        # with a reset, no callback was miscounted, AND the very same scenario agrees with the model of the code as it is
+        # (which includes the system calls made on the connection: no SO_LINGER).  Anything else - bytes reordered or
+        # duplicated, a timeout, a different callback count, a crash - keeps its own fingerprint and is a violation.
+        impl, exp = (d[1], d[2]) if d else ('', '')
+        iw, ew = impl.split(), exp.split()
+        if (len(iw) == 6 and len(ew) == 6 and iw[:2] == ['P', 'tcp'] and iw[2].startswith('got=prefix:') and iw[3] == 'end=reset'
+                and iw[4:] == ew[4:] and ew[3] == 'end=eof' and _as_coded_agrees(ops)):
+            return UNREAD_FP
+        return 'tcp-unread-other-' + vlib.default_fingerprint(ops, d)
+    return vlib.default_fingerprint(ops, d)
 
 
 def nontrivial(ops, model_lines):
